@@ -5,6 +5,7 @@
 import EEM.Proto
 import EEM.Model.DailyCurve
 import EEM.Gen.SafeDivide
+import EEM.Model.Caltrack
 
 open EEM EEM.Proto EEM.Model
 
@@ -95,6 +96,55 @@ def opSafeDivide (args : List String) : String :=
     | none => "ok none"
   | _ => "bad-op"
 
+/-- `segrow <type> <localSecs>`: the segmentation row of that instant -/
+def opSegRow (args : List String) : String :=
+  match args with
+  | [ty, t] =>
+    match Model.Caltrack.tableOf ty, parseInt t with
+    | some tbl, some t =>
+      let m := (Time.monthOf t).toNat
+      "ok " ++ " ".intercalate ((Model.Caltrack.weightsAt tbl m).map fun (n, w) => s!"{n}:{w}")
+    | none, some _ => "ok ValueError"
+    | _, _ => "bad-op"
+  | _ => "bad-op"
+
+/-- `contribs <localSecs> <ALL | name,name,...>` -/
+def opContribs (args : List String) : String :=
+  match args with
+  | [t, f] =>
+    match parseInt t with
+    | some t =>
+      let fitted := if f == "ALL" then Model.Caltrack.allFitted else if f == "NONE" then [] else f.splitOn ","
+      let m := (Time.monthOf t).toNat
+      "ok " ++ " ".intercalate ((Model.Caltrack.predictContribs fitted m).map fun (n, w) => s!"{n}:{w}")
+    | none => "bad-op"
+  | _ => "bad-op"
+
+/-- `bins <T> <e...>` -/
+def opBins (args : List String) : String :=
+  match args.mapM parseFloat with
+  | some (t :: es) => showList (some (Model.Caltrack.binFeatures t es))
+  | _ => "bad-op"
+
+/-- `occbins <0|1|n> <T> <n_occ> <e_occ...> <e_unocc...>`: occupied then unoccupied features -/
+def opOccBins (args : List String) : String :=
+  match args with
+  | o :: t :: n :: es =>
+    match parseFloat t, parseNat n, es.mapM parseFloat with
+    | some t, some n, some es =>
+      let occ : Option Bool := if o == "1" then some true else if o == "0" then some false else none
+      let fo := Model.Caltrack.occupiedFeatures occ (Model.Caltrack.binFeatures t (es.take n))
+      let fu := Model.Caltrack.unoccupiedFeatures occ (Model.Caltrack.binFeatures t (es.drop n))
+      showList (some (fo ++ fu))
+    | _, _, _ => "bad-op"
+  | _ => "bad-op"
+
+/-- `how <localSecs>` -> hour of week, month, weekday, hour -/
+def opHow (args : List String) : String :=
+  match args.mapM parseInt with
+  | some [t] => s!"ok {Model.Caltrack.hourOfWeek t} {Time.monthOf t} {Time.weekday (Time.dayOf t)} {Time.hourOf t} {Time.yearOf t} {Time.domOf t}"
+  | _ => "bad-op"
+
 def step (line : String) : String :=
   match words line with
   | "submodel" :: args => opPredictSubmodel args
@@ -103,6 +153,11 @@ def step (line : String) : String :=
   | "gfx" :: args => opGfx args
   | "fix" :: args => opFix args
   | "smooth" :: args => opSmooth args
+  | "segrow" :: args => opSegRow args
+  | "contribs" :: args => opContribs args
+  | "bins" :: args => opBins args
+  | "occbins" :: args => opOccBins args
+  | "how" :: args => opHow args
   | _ => "bad-op"
 
 partial def loop (h : IO.FS.Stream) (out : IO.FS.Stream) : IO Unit := do
